@@ -2,7 +2,7 @@
 from mvf.gen import direct as gdirect
 
 
-def gen_join_shape(rng, name='wf'):
+def gen_join_shape(rng, name='wf', force=None):
     """start -> k branches (chains ending in an async task) -> join(s)."""
     k = rng.randint(2, 4)
     P = {'name': name, 'input': {'f0': True, 'f1': False, 'n': 3},
@@ -31,6 +31,8 @@ def gen_join_shape(rng, name='wf'):
             prev = T
         ends.append(prev)
     mode = rng.choice(['all', 'all', 'one', 'N'])
+    if force == 'deep-dead-chain':
+        mode = 'all'
     j = {'name': 'j', 'async': rng.random() < 0.3, 'edges': [],
          'publish': {'v_j': 'j#1'}, 'join': 'all', 'reads': []}
     for e in ends:
@@ -51,6 +53,8 @@ def gen_join_shape(rng, name='wf'):
             P['features'].append('partial-join')
     tasks.append(j)
     extra = rng.random()
+    if force == 'deep-dead-chain':
+        extra = 0.4
     if extra < 0.3:
         # nested join fed by j and by a side branch of s
         side = {'name': 'side', 'async': True, 'edges': [
@@ -70,20 +74,37 @@ def gen_join_shape(rng, name='wf'):
     elif extra < 0.5:
         # a chain of never-started tasks, longer than the engine's search
         # depth, in front of the join
-        n = rng.randint(3, 8)
+        n = rng.randint(5 if force else 3, 9)
+        # where the chain is cut: at its entry (d0 never starts) or after
+        # its first / second task (which run, far upstream of the join and
+        # on no other path to it, and do not route on)
+        cut = rng.choice([0, 0, 1, 1, 2])
+        if force:
+            cut = rng.choice([1, 1, 2]) if n >= 6 else 1
         prev = s
         for i in range(n):
             nm = 'd%d' % i
             T = {'name': nm, 'async': False, 'edges': [], 'publish': {},
                  'join': None, 'reads': []}
-            g = ['flag', 'f1'] if prev is s else None   # f1 is False
+            g = ['flag', 'f1'] if i == cut else None   # f1 is False
             prev['edges'].append({'clause': 'on-success', 'to': nm,
                                   'guard': g, 'form': 'list'})
             tasks.append(T)
             prev = T
         prev['edges'].append({'clause': 'on-success', 'to': 'j',
                               'guard': None, 'form': 'list'})
-        P['features'].append('dead-chain-%d' % n)
+        P['features'].append('dead-chain-%d-cut%d' % (n, cut))
+        if force or rng.random() < 0.6:
+            # the dead chain is the only reason why the join cannot run:
+            # every other branch reaches it
+            for T in tasks:
+                for e in T['edges']:
+                    if T['name'].startswith('b') or T is s:
+                        if not (e['to'].startswith('d')):
+                            e['guard'] = None
+                            if e['to'] == 'j':
+                                e['clause'] = 'on-success'
+            P['features'].append('dead-chain-only')
     elif extra < 0.65:
         # a never-started cycle upstream of the join
         c1 = {'name': 'c1', 'async': False, 'publish': {}, 'join': None,
